@@ -1,0 +1,121 @@
+//go:build verif
+
+package server
+
+// Verification hooks, compiled only with the build tag "verif". They export the
+// request handler and a read-only view of the timestamp store to an external
+// monitor; nothing here is reachable in a normal build.
+
+import (
+	"container/heap"
+	"fmt"
+	"time"
+
+	"example.com/scion-time/net/ntp"
+)
+
+const (
+	VerifTSSCap     = tssCap
+	VerifTSSItemCap = tssItemCap
+)
+
+type VerifRecord struct {
+	RX, TX ntp.Time64
+}
+
+func VerifHandleRequest(clientID string, req *ntp.Packet, rxt, txt *time.Time, resp *ntp.Packet) {
+	handleRequest(clientID, req, rxt, txt, resp)
+}
+
+func VerifUpdateTXTimestamp(clientID string, rxt time.Time, txt *time.Time) {
+	updateTXTimestamp(clientID, rxt, txt)
+}
+
+// VerifSnapshot returns a copy of the records kept for clientID.
+func VerifSnapshot(clientID string) (recs []VerifRecord, qval ntp.Time64, ok bool) {
+	tssMu.Lock()
+	defer tssMu.Unlock()
+	tssi, ok := tss[clientID]
+	if !ok {
+		return nil, ntp.Time64{}, false
+	}
+	for i := 0; i != tssi.len; i++ {
+		recs = append(recs, VerifRecord{RX: tssi.buf[i].rxt, TX: tssi.buf[i].txt})
+	}
+	return recs, tssi.qval, true
+}
+
+// VerifLen returns the number of clients in the store.
+func VerifLen() int {
+	tssMu.Lock()
+	defer tssMu.Unlock()
+	return len(tss)
+}
+
+// VerifCheckStore walks the store under its own lock and checks its structural
+// invariants: map and queue agree, back-pointers, heap order, bounds, and that no
+// client is ranked older than its most recent stored exchange.
+func VerifCheckStore() (clients, values int, err error) {
+	tssMu.Lock()
+	defer tssMu.Unlock()
+	if len(tss) != len(tssQ) {
+		return len(tss), 0, fmt.Errorf("map has %d clients, queue has %d", len(tss), len(tssQ))
+	}
+	if len(tss) > tssCap {
+		return len(tss), 0, fmt.Errorf("%d clients exceed the capacity %d", len(tss), tssCap)
+	}
+	for i, tssi := range tssQ {
+		if tssi == nil {
+			return len(tss), values, fmt.Errorf("queue slot %d is nil", i)
+		}
+		if tssi.qidx != i {
+			return len(tss), values, fmt.Errorf("queue slot %d holds an item with index %d", i, tssi.qidx)
+		}
+		if tss[tssi.key] != tssi {
+			return len(tss), values, fmt.Errorf("queue slot %d (%q) is not the map's item", i, tssi.key)
+		}
+		if i > 0 && tssi.qval.Before(tssQ[(i-1)/2].qval) {
+			return len(tss), values, fmt.Errorf("heap order violated at slot %d", i)
+		}
+		if tssi.len < 1 || tssi.len > tssItemCap {
+			return len(tss), values, fmt.Errorf("client %q keeps %d exchanges", tssi.key, tssi.len)
+		}
+		for j := 0; j != tssi.len; j++ {
+			if tssi.qval.Before(tssi.buf[j].rxt) {
+				return len(tss), values, fmt.Errorf("client %q ranked older than a stored exchange", tssi.key)
+			}
+		}
+		values += tssi.len
+	}
+	return len(tss), values, nil
+}
+
+// VerifMinClient returns the least recently active client according to the queue.
+func VerifMinClient() (clientID string, qval ntp.Time64, ok bool) {
+	tssMu.Lock()
+	defer tssMu.Unlock()
+	if len(tssQ) == 0 {
+		return "", ntp.Time64{}, false
+	}
+	return tssQ[0].key, tssQ[0].qval, true
+}
+
+// VerifReset empties the store.
+func VerifReset() {
+	tssMu.Lock()
+	defer tssMu.Unlock()
+	tss = make(map[string]*tssItem)
+	tssQ = tssQ[:0]
+}
+
+// VerifLoad installs a client with the given records (for replaying a state).
+func VerifLoad(clientID string, recs []VerifRecord, qval ntp.Time64) {
+	tssMu.Lock()
+	defer tssMu.Unlock()
+	tssi := &tssItem{key: clientID, len: len(recs), qval: qval}
+	for i, r := range recs {
+		tssi.buf[i].rxt, tssi.buf[i].txt = r.RX, r.TX
+	}
+	tss[clientID] = tssi
+	heap.Push(&tssQ, tssi)
+}
